@@ -85,6 +85,57 @@ claim("C15", "DESIGN.md 5 C15",
       "Assumed: broadcast delivers to exactly the *webClient members of the slice it is given (trusted contract, body not yet verified), slices.DeleteFunc's documented behaviour, time.Since. "
       "Not decided: that GetClients(except) is all members minus the sender (getClientsUnlocked ranges over a map: only 'a subset of the members' is modelled); the replay loop on join (handleAction); wall-clock meaning of the age limit.")
 
+claim("C17", "DESIGN.md 5 C17",
+      "Authentication dominance in webserver/api.go: in apiHandler, apiGroupHandler, usersHandler, specialUserHandler, userHandler, passwordHandler, keysHandler and tokensHandler every call that reads or writes a group definition, "
+      "user, key or token (and every 304/412 answer that discloses a tag) is proved to be reached only after checkAdmin (or, for a password change only, checkAdminOrExplicitPassword for THAT user) returned true FOR THE ADDRESSED GROUP, on every path; "
+      "tokens are shown, replaced and deleted only inside the addressed group. group/description.go: GetSanitisedDescription returns a private copy without users, wildcard user and keys; GetSanitisedUser returns no password material; "
+      "UpdateDescription/UpdateUser refuse unsanitised input and carry the stored users, keys and the addressed user's password over; UpdateUser, DeleteUser, SetUserPassword and SetKeys write back the definition they read with only the addressed entry changed "
+      "(every other user's presence and password, the wildcard user and the keys are equal to what was read: quantified over all user names).",
+      "checkAdmin / checkAdminOrExplicitPassword / isAdminOrExplicitPassword / globalAdminMatch / checkGlobalAdminToken are verified too: true only for a configured server administrator whose password matches and who holds 'admin', "
+      "a token valid for the ROOT scope carrying 'admin' (only when no group is addressed), credentials to which the ADDRESSED group grants 'admin', or - only when a user is named, i.e. only for the password endpoint - the current password of that user of that group; "
+      "the credentials examined are those of the request; a refusal has answered 401, an acceptance has written nothing. "
+      "Assumed (trusted contracts): apiCORS; readDescription/GetDescription return what the file holds; JSON encoding writes what it is given; net/http. "
+      "Not decided: 404 vs 401 ordering, that JSON marshalling of UserDescription omits nothing else secret, the WHIP and public-groups endpoints; the composition across functions is by contract text (internal proof steps refer to call results), not one exported postcondition.")
+
+claim("C18", "DESIGN.md 5 C18",
+      "webserver/precondition.go: etagMatch never matches without a header or for an absent object (not even '*') and matches an identical tag; checkPreconditions answers 412 when If-Match is present and does not match, 304 (GET/HEAD) or 412 (writes) when If-None-Match matches, and otherwise lets the request through having sent nothing - "
+      "stated over etagMatch as a pure function, for all header values. The handlers pass the tag they evaluated to the update. group/description.go: UpdateDescription, DeleteDescription, UpdateUser, DeleteUser, SetUserPassword, SetKeys are proved to read, compare and replace the definition inside ONE critical section of groups.mu "
+      "(lock ghost: held at the read, at the comparison and at the write), to write only if the caller's tag equals the tag of the definition just read (empty tag: only if the object is absent), hence of concurrent writers with one tag at most one succeeds. "
+      "rewriteDescriptionFile: the definition's path is touched by exactly one operation, os.Rename from a temporary file in the same directory, and only after Encode, Sync and Close all succeeded; every clean-up removes the temporary file only.",
+      "Assumed: os.Rename is atomic on one file system, fsync makes the data durable, the file system is shared with nobody who bypasses groups.mu (another process editing files), makeETag is a deterministic function of size and mtime "
+      "(two versions with equal size AND equal mtime are indistinguishable: the statement's 'differing in size or modification time'). "
+      "Not decided: etagMatch's list/weak-tag parsing beyond the three stated clauses (scanETag is proved panic-free only), crash behaviour of the file system itself, readers that race with a rename on non-POSIX systems.")
+
+claim("C08", "DESIGN.md 5 C08",
+      "group/group.go, client.go, description.go: Description.getPasswordPermission is proved to admit a username/password iff the username has an entry whose password matches (the wildcard is then not consulted), or has no entry and the wildcard user's password matches, "
+      "returning exactly the matched record's permissions and nothing on refusal; Password.Match: an entry without password never matches, a wildcard password always does, a plaintext password matches exactly the identical string "
+      "(ConstantTimeCompare is proved to be string equality for all lengths), unknown types and every error are refusals; Permissions.Permissions: a raw list is returned as is, a role yields exactly the role's list preceded by 'record' iff the group allows recording "
+      "and the role contains op (and not record), and by 'token' iff the group has unrestricted tokens and the role contains present (and not token) - loop invariants over the role list, for every content of the role table; "
+      "Description.GetPermission composes them: a password login succeeds iff getPasswordPermission admits and the name is valid, under the name given, with exactly those permissions; every refusal returns no name and no permission.",
+      "Assumed: hex/pbkdf2/bcrypt primitives (external, effect-free), Password.Match deterministic (declared pure), validGroupName pure (C19). "
+      "Not decided: that pbkdf2/bcrypt hashes produced by galenectl verify for the right password and no other (cryptographic; only the plaintext and wildcard types are decided), "
+      "the content of permissionsMap (the role table is a package-level literal: the contract holds for every table, so 'operators' means 'roles whose list contains op'), that a refused client is left outside the group (C10 AddClient clauses).")
+
+claim("C09", "DESIGN.md 5 C09",
+      "token/stateful.go: Stateful.match is proved equal to the scope rule for all strings (own group; with include-subgroups the groups strictly below it, the byte after the prefix being '/', so 'a' never covers 'ab'; the root scope only for a root token that includes subgroups); "
+      "Stateful.Check accepts only inside that scope, only with an expiry, not after it and not before not-before (both compared with the one clock reading), and returns exactly the token's username and permissions; "
+      "token/jwt.go: matchGroup without subgroups accepts exactly /group/<g>/, with subgroups only a path that begins with /group/, ends in '/', and is a prefix of /group/<g>/ cut at a component boundary; "
+      "JWT.Check accepts only if matchGroup succeeded for THIS group with the token's own include-subgroups claim on an audience whose host is the configured one; ParseKeys hands a key to verification only if its declared alg (and kid, when given) equals the header's, "
+      "and the key function rejects a header without alg before any key is looked at; group.GetPermission checks the token against the group being joined and the configured host, grants exactly what the check returned, "
+      "lets the token's username win and never lets a client-chosen name shadow a configured user; webserver.checkGlobalAdminToken checks the ROOT scope.",
+      "Assumed: golang-jwt (signature verification, expiry-required option honoured), ParseKey (trusted), time.Time comparisons pure, url.Parse. "
+      "Not decided: signature cryptography; that WithExpirationRequired is effective inside the library; JWT 'nbf'/'exp' arithmetic inside the library; the meaning of the audience URL beyond host and path.")
+
+claim("C16", "DESIGN.md 5 C16",
+      "token/stateful.go (every function of the store under contract, no-panic included): the table, file name and file version are only touched with the state's mutex held (Update/Delete locked another mutex than Get/List: repaired); "
+      "Update replaces an existing token only if the caller's tag equals the tag computed in the same critical section after (re)loading the file, and adds a new one only under the empty tag; Delete likewise; "
+      "rewrite touches the token file only by removing it when the table is empty or by renaming over it a temporary file of the same directory after every token was encoded and the file closed without error, clean-ups remove only the temporary file; "
+      "add changes the table only after the line was appended; a failed load forgets the table; the table never holds nil entries (lock invariant assumed at Lock, re-proved at every return); "
+      "the roll-back after a failed rewrite can no longer hit a dropped table (nil-map panic: repaired).",
+      "Assumed: os.Rename atomic, append-mode write of one line atomic enough for add, JSON encode/decode faithful, the version tag (size, mtime) distinguishes versions (stated in the property). "
+      "Not decided: equality of the honoured set with what a fresh process reads (needs a model of the file contents: only the order of operations on the file is proved); an external edit DURING a critical section (outside the stated quantifier) can make rewrite reload the table and drop the pending change - "
+      "visible in the contract of rewrite (table afterwards: same, newly read, or nil) and described in DESIGN.md; durability without fsync in rewrite (rewriteDescriptionFile syncs, the token store does not).")
+
 PENDING = "not yet carried by the engine in this build (work in progress; see DESIGN.md section 9 for the order of work)"
-for pid in ["C07", "C08", "C09", "C14", "C16", "C17", "C18", "C19", "C20"]:
+for pid in ["C07", "C14", "C19", "C20"]:
     na(pid, PENDING)
